@@ -1008,6 +1008,13 @@ impl<'a, 'b> GeneratorState<'a> {
                 }
             }
 
+            if self.saved_y {
+                // Y was saved to evaluate the expression (*ptr, subscript by a memory operand): it must be
+                // restored on both sides of the branch. LDY changes the flags, so A is tested again
+                self.restore_y_saved_in_alternative(false);
+                self.asm(CMP, &ExprType::Immediate(0), pos, false)?;
+                self.flags = FlagsState::Unknown;
+            }
             if negate {
                 self.asm(BEQ, &ExprType::Label(label.into()), 0, false)?;
             } else {
